@@ -30,7 +30,7 @@ TIERS = {
     "quick": {"runs": 6000, "chunk": 100, "selftest": 64, "minimise_s": 30},
     "thorough": {"budget_s": 600, "chunk": 400, "selftest": 512, "minimise_s": 90},
 }
-PROBES = ["fixed_tuple_offending", "set_with_fault", "dict_key_fault", "required_field_excluded", "typed_addition_fault", "varargs_fault",
+PROBES = ["dependency_on_excluded_field", "fixed_tuple_offending", "set_with_fault", "dict_key_fault", "required_field_excluded", "typed_addition_fault", "varargs_fault",
           "rule_leaf_fault", "length_bound_after_exclusion", "mode_required_field", "dependency_missing_for_kept_field", "excluded_field_with_dependency",
           "data_class_elements", "property_output_offending"]
 POL = ["throw", "exclude", "preserve"]
@@ -79,6 +79,13 @@ def generate(rng, tier):
         inp = {}
         plan["mode"] = rng.choice([None, None, "a", "b"])
         for i in range(rng.choice([1, 2, 2, 3, 4])):
+            if rng.random() < 0.08:
+                # a field whose data class is chosen by a discriminator; what is offending there is the input's shape
+                f = {"name": "f%d" % i, "type": ["disc"], "required": False, "default": rng.choice(["absent", "none"]),
+                     "on_error": rng.choice([None, None, "exclude", "preserve", "throw"])}
+                fields.append(f)
+                inp[f["name"]] = rng.choice([{"kind": "a", "n": 1}, {"kind": "b", "m": "2"}, {"kind": "zz"}, 5, {"kind": "a", "n": "x"}, [1, 2]])
+                continue
             t = tdsl.gen_scalar(rng, rule_leaves=RL) if rng.random() < 0.55 else maybe_opt(tdsl.gen_container(rng, rng.choice([1, 1, 2]), rule_leaves=RL, dc_items=True))
             required = rng.random() < 0.5
             f = {"name": "f%d" % i, "type": t, "required": required,
@@ -104,6 +111,12 @@ def generate(rng, tier):
             for f in fields:
                 if not f["required"] and rng.random() < 0.6:
                     f["deps"] = True
+        elif len(fields) >= 2 and rng.random() < 0.35:
+            # a field that depends on another generated field, which may itself be offending (and so be left out)
+            tgt = rng.choice(fields)
+            for f in fields:
+                if f is not tgt and not f["required"] and rng.random() < 0.6:
+                    f["deps_on"] = tgt["name"]
         if kind == "schema" and rng.random() < 0.2:
             # a typed @property (output field): the getter hands back a payload; its setter has its own, different on_error
             pid = pool.next()
@@ -168,9 +181,11 @@ def build(plan, strict=False):
     if kind in ("schema", "dataclass"):
         ns = {"__annotations__": {}, "__module__": "verif_c11", "__qualname__": "M"}
         for f in plan["fields"]:
-            T = tdsl.build_type(f["type"])
+            T = _disc_type() if f["type"] == ["disc"] else tdsl.build_type(f["type"])
             ns["__annotations__"][f["name"]] = T
             kw = {}
+            if f["type"] == ["disc"]:
+                kw["discriminator"] = "kind"
             if f.get("max_len"):
                 kw["max_length"] = f["max_len"]
             if f["required"] == "mode":
@@ -186,6 +201,8 @@ def build(plan, strict=False):
                 kw["defer_default"] = True
             if f.get("deps"):
                 kw["dependencies"] = ["d0"]
+            if f.get("deps_on"):
+                kw["dependencies"] = [f["deps_on"]]
             if f.get("alias"):
                 kw["alias"] = f["alias"]
             if f["on_error"] and not strict:
@@ -251,9 +268,31 @@ def build(plan, strict=False):
 
 # ----------------------------------------------------------------------------- reference
 
+def _disc_type():
+    from props import c10
+    return c10._build_type(["disc"])
+
+
+_DISC_STRICT = {}
+
+
+def _disc_alone(v):
+    """Strict parse of one value by a discriminated field declared like the one under test (default 'throw' policy)."""
+    from utype import Schema, Field
+    if "cls" not in _DISC_STRICT:
+        _DISC_STRICT["cls"] = type("DiscStrict", (Schema,), {"__annotations__": {"f": _disc_type()}, "f": Field(discriminator="kind"),
+                                                          "__module__": "verif_c10", "__qualname__": "DiscStrict"})
+    try:
+        return _DISC_STRICT["cls"].__from__({"f": v})["f"]
+    except Exception:  # noqa
+        return FAIL
+
+
 def _scalar_alone(t, v):
     """Strict conversion of one element alone by the real library (same fault set)."""
     import utype
+    if t == ["disc"]:
+        return _disc_alone(v)
     T = tdsl.rule_type(t)
     try:
         return utype.type_transform(v, T, options=utype.Options())
@@ -263,7 +302,7 @@ def _scalar_alone(t, v):
 
 def ref(t, v, pol):
     """The statement, level by level. v is the built python input."""
-    if tdsl.is_scalar(t):
+    if tdsl.is_scalar(t) or t == ["disc"]:
         return _scalar_alone(t, v)
     k = t[0]
     if k == "opt":
@@ -338,9 +377,12 @@ def ref_plan(plan, value, pol, stats):
         return r
     if kind in ("schema", "dataclass"):
         out = {}
+        left_out = set()
+        kept = set()
         for f in plan["fields"]:
             name = f["name"]
             if name not in value:
+                left_out.add(name)
                 continue
             r = ref(f["type"], value[name], pol)
             if r is not FAIL and r is not None and f.get("max_len") and len(r) > f["max_len"]:
@@ -350,6 +392,7 @@ def ref_plan(plan, value, pol, stats):
                 p = f["on_error"] or pol["invalid_values"]
                 if p == "exclude":
                     excluded = True
+                    left_out.add(name)
                     if f.get("deps"):
                         stats["probe:excluded_field_with_dependency"] += 1
                     if f["required"] is True or (f["required"] == "mode" and plan.get("mode") == "a"):
@@ -363,9 +406,16 @@ def ref_plan(plan, value, pol, stats):
                 else:
                     return FAIL
             out[name] = r
+            if not excluded:
+                kept.add(name)
             if f.get("deps") and "d0" not in value and not excluded:
                 # the field is kept (converted or preserved) and what it depends on is not given
                 stats["probe:dependency_missing_for_kept_field"] += 1
+                return FAIL
+        for f in plan["fields"]:
+            if f.get("deps_on") and f["name"] in kept and f["deps_on"] in left_out:
+                # "the input with exactly the offending elements removed": what the kept field depends on is not there
+                stats["probe:dependency_on_excluded_field"] += 1
                 return FAIL
         if "d0" in value:
             out["d0"] = int(value["d0"])
@@ -442,7 +492,14 @@ def ref_plan(plan, value, pol, stats):
         return (a, tuple(args), kwargs)
 
 
-def _value_of(plan):
+def _value_of(plan, control=False):
+    if control and any(f["type"] == ["disc"] for f in plan.get("fields", [])):
+        # (the inputs of discriminated fields offend by their shape, not by an injected fault: the control takes a valid one)
+        v = tdsl.build_value(plan["input"])
+        for f in plan["fields"]:
+            if f["type"] == ["disc"] and f["name"] in v:
+                v[f["name"]] = {"kind": "a", "n": 1}
+        return v
     if plan["kind"] == "func":
         return {"a": tdsl.build_value(plan["a"]), "args": [tdsl.build_value(x) for x in plan["args"]],
                 "kwargs": {k: tdsl.build_value(x) for k, x in plan["kwargs"].items()}}
@@ -515,14 +572,15 @@ def execute(plan):
     kernel.reset_world()
     faults.register_leaves()
     kernel.make_module("verif_c11")
+    kernel.make_module("verif_c10")     # (home of the discriminated data classes shared with C10)
     pol = plan["policies"]
     parse = build(plan)
 
     # fault-free control: must be accepted and equal to the reference
-    value = _value_of(plan)
+    value = _value_of(plan, control=True)
     exp0 = ref_plan(plan, value, pol, res.stats)
     try:
-        got0 = _observe(parse(_value_of(plan)), plan)
+        got0 = _observe(parse(_value_of(plan, control=True)), plan)
     except Exception as e:  # noqa
         if not isinstance(e, ParseError):
             raise kernel.HarnessError(f"C11 control run raised {type(e).__name__}: {e} plan={kernel.jdump(plan)}")
